@@ -20,6 +20,14 @@ CHECKS = {
     "C11": ("fault_enumeration", "runtime monitoring with fault enumeration: life-cycle histories under ASan+LSan/TSan with hook/late-callback/descriptor/thread balance monitors; every k-th calloc/epoll_create1/pipe2/epoll_ctl/pthread_create of pool creation failed via link-time interposers",
             "Every resource acquisition of tp_create+tp_threads_create (counted by a dry run) is failed one at a time for every k and every kind for pools of 1, 2, 4 (16 in thorough) and the outcome checked (error returned, nothing left behind, hooks balanced); on top, seeded histories over create/threads_create/attach_first/shutdown (main, external, pool thread, concurrent)/wait/destroy incl. illegal orders with in-flight senders, timers and read events, perturbed at the guarded points.",
             TP_NOTE + "; descriptor/thread balance read from /proc/self", "DESIGN.md 4 C11"),
+    "C15": ("exploration", "runtime monitoring: library-built DNS/RADIUS messages executed under ASan+UBSan in exact-size buffers, every observation compared with independent RFC 1035/6891 and RFC 2865/2869 reference encoders (hashlib MD5/HMAC)",
+            "Held on the cases explored: DNS build sequences compared byte-for-byte with a reference encoder, validated and parsed back; name/label round trips with buffer sizes swept around the need; RADIUS build/sign/verify against reference authenticators, password hiding at every 16-octet edge 0..128, wrong secrets and single-octet corruptions of signed packets (all octets x 3 masks in thorough) judged by what RFC processing must detect.",
+            "trusted: Python hashlib/hmac, the reference encoders (self-tested on RFC 2865 7.1 packets and RFC 2202 vectors in setup); names outside 1..253 octets and attributes whose semantics the library does not document are recorded but not judged",
+            "DESIGN.md 4 C15"),
+    "C20": ("exploration", "runtime monitoring: grammar-generated requests/status lines/header blocks (generator keeps its own AST) run through the real parser under ASan+UBSan; returned spans, header lookups, counts and http_req_sec_chk verdicts compared with the AST and an independent pattern scanner",
+            "Held on the cases explored: RFC 7230/3986 grammar-generated request and status lines (all target forms, methods, paths, queries), header sets with arbitrary case/folding/duplicates, and every single edit introducing one of the seven smuggling patterns (1.5M control-octet edits in thorough); spans must be the AST's sub-spans (path up to the documented slash trimming).",
+            "trusted: the generator/AST and pattern scanner (self-tested in setup); obs-text > 126 and method tokens not starting with A-Z are documented library restrictions and not judged",
+            "DESIGN.md 4 C20"),
 }
 
 PENDING_REASON = "check not built yet in this session (runtime-monitoring design exists in DESIGN.md section 4); not claimed until the check runs clean on the unchanged tree"
